@@ -20,6 +20,40 @@ STEREO = ['C[C@H](O)CC', 'C[C@@H](O)CC', 'C[C@](N)(O)CC', 'N[C@@H](C)C(=O)O', 'C
           'CC=[C@]=CC', 'C/C=C=C=C/C', 'C[C@H](O)C=[C@]=CC', 'C[C@H]1CO1', 'C[C@@H]1C[C@H]1C', '[C@H](F)(Cl)Br', 'F[C@](Cl)(Br)I']
 
 
+# --- audit extension: input classes the lists above never contained ---------------------------------------------------------
+# every donor element of the library's dative-direction list bound to a metal, both written orders, twice-bound metals, noble gases
+DONORS = ['CP(C)C~[Pd+2]', '[Pd+2]~P(C)(C)C', 'C[Se]C~[Pd+2]', '[Br-]~[Pt+2]', '[Pt+2](~[Br-])~[Br-]', '[I-]~[Cu+]', '[Cu+]~[I-]', 'C[As](C)C~[Pd+2]',
+          'C[Te]C~[Pd+2]', 'C[Sb](C)C~[Pd+2]', '[Xe]~[Au+]', '[Ar]~[Cu+]', '[Kr]~[Au+]', '[Ne]~[Au+]', '[He]~[Au+]', '[F-]~[Fe+3]', 'O=C~[Fe]', '[Fe]~C=O',
+          'F[B-](F)(F)F.[Pd+2]~N', 'CSC~[Pt+2](~[Cl-])~[Cl-]', 'C[Si](C)(C)O~[Li+]', 'C[GeH2]O~[Li+]', '[H]O([H])~[Na+]', 'N#CC~[Cu+]']
+# isotope-labelled / multi-centre / dependent centres, ring E/Z (ring size >= 8), charged double-bond ends, centres next to triple bonds,
+# hetero centres next to carbon centres (the hetero centre is outside the library's model, the carbon centre is not)
+STEREO2 = ['C[C@]([2H])(O)CC', 'C[C@H](O)[13CH3]', 'C[C@H]([13CH3])O', 'C[C@@H](N)[C@H](C)[C@@H](N)C', 'C[C@H](O)[C@@H](C)[C@H](O)C', 'O=S(C)[C@H](C)N',
+           'C1CCC/C=C/CC1', 'C1CCC/C=C\\CC1', 'C\\1=C/CCCCCC1', 'C/C=N/O', '[O-]/N=C/C', 'C(/F)=C/F', 'F/C=C/C=C/C=C\\F', 'C[C@H](F)C#C[C@@H](F)C',
+           'C/C=C/[C@H](C)/C=C\\C', 'C[C@@H]1CC[C@H](C)C12CC2', 'C[C@H]1[C@@H](C)C1C', '[NH3+][C@@H](C)C(=O)[O-]', 'C[C@H]([O-])CC.[Na+]', 'C[C@H]([CH2])O',
+           'C[C@@H](c1ccccc1)c1ccncc1', 'C/C(=C\\c1ccccc1)c1ccco1', 'OC(=O)/C=C/C(=O)O', 'OC(=O)/C=C\\C(=O)O', 'C[C@H](N)C(=O)N[C@@H](C)C(=O)O',
+           'C[C@]1(O)CC[C@@](C)(N)CC1', 'CC[C@@](C)(O)/C=C(/C)Cl', 'C[C@H](Cl)C(C)=C(C)[C@H](C)Cl', 'C[C@@H](O)c1c[nH]cc1', 'Cl/C=C/[C@@H]1CC[C@H](Br)O1']
+# smallest molecules with every neighbour of the centre / both substituents of both double-bond ends distinguishable: many spellings each
+TINY = ['[C@H](F)(Cl)Br', 'F[C@](Cl)(Br)I', 'F/C(Cl)=C(/Br)I', 'F/C=C/Cl', 'F/C(Cl)=C/Br', '[2H][C@](F)(Cl)Br', 'F[C@]([H])(Cl)Br', 'C[C@H](F)/C=C(/Cl)Br']
+SMALL = ['C', 'N', 'O', '[Na+]', '[Cl-]', '[H][H]', '[H+]', '[H-]', '[He]', '[Fe]', '[Pd]', '[Cu]', '[Zn]', 'C.C', '[Na]', '[Mg]', '[C]', 'C.[Mg]', '[Li]C', 'C[Mg]Br', '[AlH3]']
+# RDKit's own dative SMILES (from_rdkit on DATIVE bonds in both written directions) and salts
+RD_DATIVE = ['N->[Cu+2]<-N', '[Cu+2](<-N)<-N', '[Cl-]->[Pt+2](<-[Cl-])(<-N)<-N', 'CP(C)(C)->[Pd+2]', '[Pd+2]<-P(C)(C)C', 'O=C->[Ni](<-C=O)(<-C=O)<-C=O',
+             'CSC->[Pd+2]', 'CO->[Li+]', 'C[Se](C)->[Pd+2]', '[Br-]->[Pt+2]<-[Br-]', 'c1ccccn1->[Cu+]', 'C[C@H](N->[Cu+2])C(=O)O', 'C/C=C/CN->[Cu+2]']
+
+
+def grid():
+    """single atoms [X Hn +-c] (and their radicals): every hydrogen count 0..4 and charge of the common elements - the hydrogen count the bridge
+    writes has to survive RDKit's own implicit-hydrogen rule"""
+    out = []
+    for el in 'B C N O F Si P S Cl Br I Se As Li Na K Mg Ca Al Zn Fe Cu Sn'.split():
+        for ch in (-1, 0, 1, 2):
+            if ch == 2 and el not in ('Mg', 'Ca', 'Zn', 'Fe', 'Cu', 'Sn'):
+                continue
+            for h in range(5):
+                for rad in ((0, 1) if ch == 0 else (0,)):
+                    out.append(f'[{el}{"H" + str(h) if h else ""}{("+" if ch > 0 else "-") * abs(ch)}]' + (' |^1:0|' if rad else ''))
+    return out
+
+
 def V(family, key, what, witness, native=None):
     return (family, key, what, witness, native)
 
@@ -70,6 +104,85 @@ def bridge_view(m):
 ORDER = {1: 'SINGLE', 2: 'DOUBLE', 3: 'TRIPLE', 4: 'AROMATIC', 8: 'DATIVE'}
 # main-group non-metals / metalloids that act as donors (independent of the library's list)
 NONMETAL = set('H He B C N O F Ne Si P S Cl Ar Ge As Se Br Kr Sb Te I Xe'.split())
+
+
+def bare_neutral_atoms(Chem, m):
+    """independent predicate on the input (family key of a known finding): atoms without neighbours, hydrogens, charge and radical
+    state of an element to which RDKit's valence model assigns implicit hydrogens"""
+    pt = Chem.GetPeriodicTable()
+    return [n for n, a in m.atoms() if not m._bonds[n] and not a.charge and not a.is_radical and a.implicit_hydrogens == 0
+            and pt.GetDefaultValence(a.atomic_number) > 0]
+
+
+def outside_model(Chem, rdm):
+    """RDKit stereo elements the library does not model (fixed predicates on the RDKit molecule): centres that are not carbon or have
+    fewer than 3 non-hydrogen neighbours (hydrogen isotopes are hydrogens); stereo double bonds with an end without non-hydrogen substituent;
+    atoms with more than one radical electron (the library keeps one flag)"""
+    out = []
+    for x in rdm.GetAtoms():
+        if x.GetNumRadicalElectrons() > 1:
+            out.append(('multiradical', x.GetIdx()))
+        if str(x.GetChiralTag()) != 'CHI_UNSPECIFIED' and (x.GetAtomicNum() != 6 or sum(y.GetAtomicNum() != 1 for y in x.GetNeighbors()) < 3):
+            out.append(('centre', x.GetIdx()))
+    for b in rdm.GetBonds():
+        if str(b.GetStereo()) in ('STEREOZ', 'STEREOE', 'STEREOCIS', 'STEREOTRANS'):
+            for p, q in ((b.GetBeginAtom(), b.GetEndAtom()), (b.GetEndAtom(), b.GetBeginAtom())):
+                if not any(y.GetAtomicNum() != 1 for y in p.GetNeighbors() if y.GetIdx() != q.GetIdx()):
+                    out.append(('bond', b.GetIdx()))
+    return out
+
+
+def rd_canon(Chem, rdm):
+    """RDKit canonical SMILES of the sanitised molecule without atom maps and conformers"""
+    c = Chem.Mol(rdm)
+    for x in c.GetAtoms():
+        x.SetAtomMapNum(0)
+    c.RemoveAllConformers()
+    Chem.SanitizeMol(c)
+    return Chem.MolToSmiles(c)
+
+
+def alt_stereo_atoms(Chem, rdm, r):
+    """the same RDKit molecule with the reference (stereo) atoms of every labelled double bond replaced by a seeded choice among the
+    neighbours of its ends and the E/Z label flipped for an odd number of replacements; None when no bond has an alternative"""
+    from rdkit.Chem import BondStereo
+    c = Chem.RWMol(rdm)
+    changed = 0
+    for b in c.GetBonds():
+        st = b.GetStereo()
+        if st not in (BondStereo.STEREOE, BondStereo.STEREOZ):
+            continue
+        sa = list(b.GetStereoAtoms())
+        x, y = b.GetBeginAtom(), b.GetEndAtom()
+        if c.GetBondBetweenAtoms(x.GetIdx(), sa[0]) is None:
+            x, y = y, x
+        nx = r.choice([z.GetIdx() for z in x.GetNeighbors() if z.GetIdx() != y.GetIdx()])
+        ny = r.choice([z.GetIdx() for z in y.GetNeighbors() if z.GetIdx() != x.GetIdx()])
+        if (nx, ny) == (sa[0], sa[1]):
+            continue
+        if (nx != sa[0]) ^ (ny != sa[1]):
+            st = BondStereo.STEREOE if st == BondStereo.STEREOZ else BondStereo.STEREOZ
+        if x.GetIdx() == b.GetBeginAtomIdx():
+            b.SetStereoAtoms(nx, ny)
+        else:
+            b.SetStereoAtoms(ny, nx)
+        b.SetStereo(st)
+        changed += 1
+    return c.GetMol() if changed else None
+
+
+def cistrans_labelled(Chem, rdm):
+    """the same RDKit molecule with STEREOZ -> STEREOCIS and STEREOE -> STEREOTRANS (same reference atoms): what RDKit's non-legacy stereo
+    perception (Chem.SetUseLegacyStereoPerception(False)) attaches to double bonds; None without labelled bonds"""
+    from rdkit.Chem import BondStereo
+    c = Chem.RWMol(rdm)
+    n = 0
+    for b in c.GetBonds():
+        st = b.GetStereo()
+        if st in (BondStereo.STEREOE, BondStereo.STEREOZ):
+            b.SetStereo(BondStereo.STEREOCIS if st == BondStereo.STEREOZ else BondStereo.STEREOTRANS)
+            n += 1
+    return c.GetMol() if n else None
 
 
 def check_to_attrs(Chem, m, rd, tag):
@@ -167,17 +280,19 @@ def check_one(a):
     Chem = _rd()
     from rdkit.Chem import AllChem
     s, form = a['smiles'], a['form']
-    info = {'gap_hits': 0, 'stereo': 0, 'chython_rejects': 0, 'rdkit_rejects': 0, 'coordinate': 0, 'unsupported_labels': 0, 'noncarbon_rdkit_centres': 0, 'gap_inputs': 0}
+    info = {'gap_hits': 0, 'stereo': 0, 'chython_rejects': 0, 'rdkit_rejects': 0, 'coordinate': 0, 'unsupported_labels': 0, 'noncarbon_rdkit_centres': 0, 'gap_inputs': 0,
+            'respellings': 0, 'respelling_skipped': 0, 'rd_variants': 0, 'rd_variant_skipped': 0, 'conformer_sets': 0, 'bare_neutral_atom_inputs': 0, 'extra_renumberings': 0, 'library_rereads': 0}
     vs = []
     wit = {'replay': 'check_one', 'args': a}
     tag = f'{s}|{form}'
 
-    def fire(field, what, e=None, g=None, gap_mol=None, cage=False):
+    def fire(field, what, e=None, g=None, gap_mol=None, cage=False, family=None):
+        """family: key of a root-cause family decided by an independent predicate on the input (else the key names the input)"""
         if gap_mol is not None and G.in_gap(gap_mol, cage=cage):
             info['gap_hits'] += 1
             info['gap_inputs'] = 1
             return
-        vs.append(V(f'c20:{field}', f'c20:{field}:{tag}', f'{what} [{s}, {form} form]: expected {e!r}, got {g!r}', wit, {'expected': e, 'got': g}))
+        vs.append(V(f'c20:{field}', f'c20:{field}:{family or tag}', f'{what} [{s}, {form} form]: expected {e!r}, got {g!r}', wit, {'expected': e, 'got': g}))
 
     try:
         m = smiles(s)
@@ -218,8 +333,12 @@ def check_one(a):
         # (coordinate-bond complexes of the generator list are all sanitised by RDKit on the unchanged tree: a refusal is a finding)
         fire('to:exc', f'to_rdkit_molecule raises {type(e).__name__}: {str(e)[:120]}', 'a molecule', type(e).__name__)
         return vs, info, m
+    bare = bare_neutral_atoms(Chem, m)
+    info['bare_neutral_atom_inputs'] = int(bool(bare))
     for field, e, g in check_to_attrs(Chem, m, rd, tag):
-        fire(field, f'to_rdkit_molecule does not preserve {field[3:]}', e, g)
+        fire(field, f'to_rdkit_molecule does not preserve {field[3:]}', e, g, family='bare-neutral-atom' if bare and field == 'to:hydrogens' else None)
+    if bare and any(v[0] == 'c20:to:hydrogens' for v in vs):
+        return vs, info, m      # the converted molecule is a different compound: the relations below would only repeat this finding
     if any(x.GetAtomMapNum() for x in rd0.GetAtoms()):
         fire('to:keep_mapping', 'keep_mapping=False still sets atom map numbers', 0, [x.GetAtomMapNum() for x in rd0.GetAtoms()][:5])
     can_to = Chem.MolToSmiles(rd0)
@@ -264,15 +383,119 @@ def check_one(a):
         fire('roundtrip:exc', f'to_rdkit(from_rdkit(to_rdkit(m))) raises {type(e).__name__}', 'a molecule', str(e)[:120])
 
     # --- renumbering -----------------------------------------------------------------------------------------------------------
-    m2, _ = D.renumber(m, r, offset=r.choice([0, 0, 7, 100]))
-    try:
-        can2 = Chem.MolToSmiles(to_rdkit_molecule(m2, keep_mapping=False))
-        if can2 != can_to:
-            fire('to:renumbering', 'MolToSmiles(to_rdkit(m)) changes under renumbering of m', can_to, can2, gap_mol=m)
-    except Exception as e:
-        fire('to:exc-renumbered', f'to_rdkit_molecule raises {type(e).__name__} on a renumbered copy', 'a molecule', str(e)[:120])
+    nren = 1 + (a.get('renumberings', 0) if has_st or coordinate else 0)
+    info['extra_renumberings'] = nren - 1
+    for k in range(nren):
+        m2, _ = D.renumber(m, r, offset=r.choice([0, 0, 7, 100]))
+        try:
+            rd2 = to_rdkit_molecule(m2)
+            can2 = Chem.MolToSmiles(to_rdkit_molecule(m2, keep_mapping=False))
+            if can2 != can_to:
+                fire('to:renumbering', 'MolToSmiles(to_rdkit(m)) changes under renumbering of m', can_to, can2, gap_mol=m)
+            # attribute transfer (atom map = atom number, dative direction, ...) holds for the renumbered molecule too
+            for field, e, g in check_to_attrs(Chem, m2, rd2, tag):
+                fire(field + '-renumbered', f'to_rdkit_molecule does not preserve {field[3:]} of a renumbered copy', e, g)
+        except Exception as e:
+            fire('to:exc-renumbered', f'to_rdkit_molecule raises {type(e).__name__} on a renumbered copy', 'a molecule', str(e)[:120])
+
+    # --- re-spelling: other atom / bond insertion orders of the same molecule (neighbour orders of the centres change) -------------------------
+    # RDKit writes seeded random spellings of its reading of str(m); the library parses them; precondition (judged by RDKit alone): RDKit reads the
+    # library's canonical SMILES of the re-parsed molecule as the same compound; claim: to_rdkit gives the same RDKit canonical SMILES
+    nsp = a.get('respell', 0) if not coordinate else 0
+    if nsp and (has_st or a.get('respell_all')):
+        seen_sp = set()
+        for sp in Chem.MolToRandomSmilesVect(ref_rd, nsp, randomSeed=(env.SEED * 7919 + a.get('seed', 0)) % 2147483647 + 1):
+            if sp in seen_sp:
+                continue
+            seen_sp.add(sp)
+            try:
+                mi = smiles(sp)
+                mi.kekule()
+                if form == 'aromatic':
+                    mi.thiele()
+                ri = rd_parse(Chem, str(mi))
+                ok = ri is not None and not mi.check_valence() and Chem.MolToSmiles(ri) == can_ref
+            except Exception:
+                ok = False
+            if not ok:
+                info['respelling_skipped'] += 1
+                continue
+            info['respellings'] += 1
+            try:
+                cani = Chem.MolToSmiles(to_rdkit_molecule(mi, keep_mapping=False))
+            except Exception as e:
+                fire('to:exc-respelled', f'to_rdkit_molecule raises {type(e).__name__} on the re-parsed spelling {sp}', 'a molecule', str(e)[:120])
+                continue
+            if cani != can_to:
+                fire('to:respelling', f'MolToSmiles(to_rdkit(m)) changes when m is built from the spelling {sp}', can_to, cani, gap_mol=m)
+                continue
+            try:
+                bi = from_rdkit_molecule(to_rdkit_molecule(mi))
+                nbi, nmi = D.norm(bi.copy()), D.norm(bridge_view(mi)[0])
+                if str(nbi) != str(nmi):
+                    fire('roundtrip:equality-respelled', f'from_rdkit(to_rdkit(m)) != m for m built from the spelling {sp}', str(nmi), str(nbi), gap_mol=m, cage=True)
+            except Exception as e:
+                fire('roundtrip:exc', f'from_rdkit(to_rdkit(m)) raises {type(e).__name__} for m built from the spelling {sp}', 'a molecule', str(e)[:120])
 
     # --- from_rdkit_molecule on RDKit's own molecules ----------------------------------------------------------------------------
+    def from_side(rdm, label):
+        """all contracts of the RDKit -> library direction for one RDKit molecule"""
+        out_model = outside_model(Chem, rdm)
+        info['noncarbon_rdkit_centres'] += len(out_model)
+        if any(k == 'multiradical' for k, _ in out_model):
+            return None     # not representable: the library keeps one radical flag per atom
+        try:
+            f = from_rdkit_molecule(rdm)
+        except Exception as e:
+            fire('from:exc', f'from_rdkit_molecule({label}) raises {type(e).__name__}: {str(e)[:120]}', 'a molecule', type(e).__name__)
+            return None
+        for field, e, g in check_from_attrs(Chem, rdm, f):
+            fire(field, f'from_rdkit_molecule({label}) does not preserve {field[5:]}', e, g)
+        plain = Chem.Mol(rdm)
+        for x in plain.GetAtoms():
+            x.SetAtomMapNum(0)
+        plain.RemoveAllConformers()
+        rs = Chem.MolToSmiles(plain)
+        # SMILES carries no radical counts (each toolkit infers them with its own valence model); CXSMILES does
+        cx = Chem.MolToCXSmiles(plain) if any(x.GetNumRadicalElectrons() for x in plain.GetAtoms()) else rs
+        try:
+            f2 = smiles(cx)
+            # accepted by both: the library reads RDKit's SMILES without valence errors and without repairing hydrogen counts
+            f2 = D.norm(f2)
+            if f2.check_valence() or (sorted((x.atomic_number, x.implicit_hydrogens or 0) for _, x in f2.atoms())
+                                      != sorted((x.GetAtomicNum(), x.GetTotalNumHs()) for x in plain.GetAtoms())):
+                info['library_rereads'] += 1
+                return f
+        except Exception:
+            return f
+        f1, err = safe_norm(D, f)
+        if f1 is None:
+            fire('from:invalid-result', f'from_rdkit_molecule({label}) returns a molecule the library cannot normalise (kekule/thiele)', str(f2), err)
+            return f
+        if str(f1) != str(f2):
+            fire('from:canonical', f'str(from_rdkit({label})) differs from str(smiles(MolToSmiles(rd)))', str(f2), str(f1), gap_mol=f2, cage=True)
+        # renumbered RDKit molecule
+        perm = list(range(rdm.GetNumAtoms()))
+        r.shuffle(perm)
+        try:
+            f3, err = safe_norm(D, from_rdkit_molecule(Chem.RenumberAtoms(rdm, perm)))
+            if f3 is None or str(f3) != str(f1):
+                fire('from:renumbering', f'str(from_rdkit({label})) changes under RenumberAtoms', str(f1), str(f3) if f3 is not None else err, gap_mol=f2, cage=True)
+        except Exception as e:
+            fire('from:exc-renumbered', f'from_rdkit_molecule raises {type(e).__name__} on a renumbered RDKit molecule', 'a molecule', str(e)[:120])
+        # to o from = id on RDKit's side (carbon centres only: other centres are outside the library's model)
+        if not out_model:
+            try:
+                t = Chem.MolToSmiles(to_rdkit_molecule(f, keep_mapping=False))
+                san = Chem.Mol(plain)
+                Chem.SanitizeMol(san)       # the converter sanitises (aromaticity perception): compare with the sanitised original
+                rs = Chem.MolToSmiles(san)
+                if t != rs:
+                    fire('roundtrip:from-to', f'to_rdkit(from_rdkit({label})) differs from rd in RDKit canonical SMILES', rs, t, gap_mol=f2)
+            except Exception as e:
+                fire('roundtrip:exc', f'to_rdkit(from_rdkit({label})) raises {type(e).__name__}', 'a molecule', str(e)[:120])
+        return f
+
     if not coordinate:
         src = Chem.MolFromSmiles(s.split(' |')[0])    # RDKit's default reading (explicit hydrogen atoms merged)
         if src is not None and form == 'kekule':
@@ -285,71 +508,180 @@ def check_one(a):
             for i, x in enumerate(rdm.GetAtoms()):
                 if r.random() < .3:
                     x.SetAtomMapNum(i + 1 + a.get('offset', 0))
-            noncarbon = [x.GetIdx() for x in rdm.GetAtoms() if x.GetAtomicNum() != 6 and str(x.GetChiralTag()) != 'CHI_UNSPECIFIED']
-            info['noncarbon_rdkit_centres'] += len(noncarbon)
+            from_side(rdm, label)
+
+        # --- RDKit-side input classes: the same RDKit molecule as RDKit may hand it over in other states ------------------------------------
+        base = ref_rd if a.get('variants') else None
+        if base is not None and not outside_model(Chem, base):
+            base_can = rd_canon(Chem, base)
+            variants = []
             try:
-                f = from_rdkit_molecule(rdm)
-            except Exception as e:
-                fire('from:exc', f'from_rdkit_molecule({label}) raises {type(e).__name__}: {str(e)[:120]}', 'a molecule', type(e).__name__)
-                continue
-            for field, e, g in check_from_attrs(Chem, rdm, f):
-                fire(field, f'from_rdkit_molecule({label}) does not preserve {field[5:]}', e, g)
-            plain = Chem.Mol(rdm)
-            for x in plain.GetAtoms():
-                x.SetAtomMapNum(0)
-            plain.RemoveAllConformers()
-            rs = Chem.MolToSmiles(plain)
-            # SMILES carries no radical counts (each toolkit infers them with its own valence model); CXSMILES does
-            cx = Chem.MolToCXSmiles(plain) if any(x.GetNumRadicalElectrons() for x in plain.GetAtoms()) else rs
-            try:
-                f2 = D.norm(smiles(cx))
+                variants.append(('AddHs(rd)', Chem.AddHs(base, addCoords=bool(base.GetNumConformers())), None))
             except Exception:
-                continue
-            f1, err = safe_norm(D, f)
-            if f1 is None:
-                fire('from:invalid-result', f'from_rdkit_molecule({label}) returns a molecule the library cannot normalise (kekule/thiele)', str(f2), err)
-                continue
-            if str(f1) != str(f2):
-                fire('from:canonical', f'str(from_rdkit({label})) differs from str(smiles(MolToSmiles(rd)))', str(f2), str(f1), gap_mol=f2, cage=True)
-            # renumbered RDKit molecule
-            perm = list(range(rdm.GetNumAtoms()))
-            r.shuffle(perm)
+                pass
             try:
-                f3, err = safe_norm(D, from_rdkit_molecule(Chem.RenumberAtoms(rdm, perm)))
-                if f3 is None or str(f3) != str(f1):
-                    fire('from:renumbering', f'str(from_rdkit({label})) changes under RenumberAtoms', str(f1), str(f3) if f3 is not None else err, gap_mol=f2, cage=True)
-            except Exception as e:
-                fire('from:exc-renumbered', f'from_rdkit_molecule raises {type(e).__name__} on a renumbered RDKit molecule', 'a molecule', str(e)[:120])
-            # to o from = id on RDKit's side (carbon centres only: other centres are outside the library's model)
-            if not noncarbon:
+                c2 = Chem.Mol(base)
+                if not c2.GetNumConformers():
+                    AllChem.Compute2DCoords(c2)
+                variants.append(('MolFromMolBlock(MolToMolBlock(rd))', Chem.MolFromMolBlock(Chem.MolToMolBlock(c2), removeHs=False), base_can))
+            except Exception:
+                pass
+            try:
+                variants.append(('rd with other stereo atoms', alt_stereo_atoms(Chem, base, r), base_can))
+            except Exception:
+                pass
+            for label, rv, expect in variants:
+                if rv is None:
+                    continue
                 try:
-                    t = Chem.MolToSmiles(to_rdkit_molecule(f, keep_mapping=False))
-                    san = Chem.Mol(plain)
-                    Chem.SanitizeMol(san)       # the converter sanitises (aromaticity perception): compare with the sanitised original
-                    rs = Chem.MolToSmiles(san)
-                    if t != rs:
-                        fire('roundtrip:from-to', f'to_rdkit(from_rdkit({label})) differs from rd in RDKit canonical SMILES', rs, t, gap_mol=f2)
+                    valid = expect is None or rd_canon(Chem, rv) == expect
+                except Exception:
+                    valid = False
+                if not valid:        # RDKit itself does not regard the variant as the same compound: not an input of the claim
+                    info['rd_variant_skipped'] += 1
+                    continue
+                info['rd_variants'] += 1
+                from_side(rv, label)
+            # STEREOCIS / STEREOTRANS labels: configuration relative to the stereo atoms, RDKit writes the same canonical SMILES
+            rv = cistrans_labelled(Chem, base)
+            if rv is not None and rd_canon(Chem, rv) == base_can:
+                info['rd_variants'] += 1
+                try:
+                    fb, fv = D.norm(from_rdkit_molecule(base)), D.norm(from_rdkit_molecule(rv))
+                    if str(fb) != str(fv):
+                        lost = not any(b.stereo is not None for *_, b in fv.bonds())
+                        fire('from:bond-stereo-label', 'from_rdkit_molecule reads STEREOCIS/STEREOTRANS double bonds differently from the same bonds labelled STEREOZ/STEREOE',
+                             str(fb), str(fv), gap_mol=fb, family='cistrans-label-dropped' if lost else None)
                 except Exception as e:
-                    fire('roundtrip:exc', f'to_rdkit(from_rdkit({label})) raises {type(e).__name__}', 'a molecule', str(e)[:120])
+                    fire('from:exc', f'from_rdkit_molecule raises {type(e).__name__} on STEREOCIS/STEREOTRANS labels', 'a molecule', str(e)[:120])
+            # 3D conformers: first conformer gives x, y; 3D conformers are kept and written back (mutual inverse)
+            if a.get('conf3d') and base.GetNumHeavyAtoms() <= a['conf3d']:
+                h = Chem.Mol(base)
+                h.RemoveAllConformers()
+                h = Chem.AddHs(h)
+                try:
+                    cids = list(AllChem.EmbedMultipleConfs(h, 2, randomSeed=1 + a.get('seed', 0) + env.SEED))
+                except Exception:
+                    cids = []
+                if len(cids) == 2:
+                    info['conformer_sets'] += 1
+                    f = from_side(h, 'AddHs(rd) with two embedded 3D conformers')
+                    if f is not None:
+                        pos = [c.GetPositions() for c in h.GetConformers()]
+                        got = getattr(f, '_conformers', None) or []
+                        nums = list(f)
+                        okc = len(got) == 2 and all(set(c) == set(nums) and all(max(abs(u - v) for u, v in zip(c[n], p[i])) < 1e-6 for i, n in enumerate(nums))
+                                                    for c, p in zip(got, pos))
+                        if not okc:
+                            fire('from:conformers', 'from_rdkit_molecule does not keep the 3D conformers atom by atom', '2 conformers of rd', f'{len(got)} conformers / other positions')
+                        else:
+                            try:
+                                t = to_rdkit_molecule(f)
+                                cs = list(t.GetConformers())
+                                okt = (len(cs) == 3 and not cs[0].Is3D() and all(c.Is3D() for c in cs[1:])
+                                       and all(abs(cs[0].GetPositions()[i][k] - pos[0][i][k]) < 1e-6 for i in range(h.GetNumAtoms()) for k in (0, 1))
+                                       and all(abs(c.GetPositions()[i][k] - p[i][k]) < 1e-6 for c, p in zip(cs[1:], pos) for i in range(h.GetNumAtoms()) for k in range(3)))
+                                if not okt:
+                                    fire('roundtrip:conformers', 'to_rdkit(from_rdkit(rd)) does not give back the 2D layout followed by the 3D conformers of rd',
+                                         '1 + 2 conformers, same positions', f'{len(cs)} conformers, 3D flags {[c.Is3D() for c in cs]}')
+                            except Exception as e:
+                                fire('roundtrip:exc', f'to_rdkit(from_rdkit(rd with 3D conformers)) raises {type(e).__name__}', 'a molecule', str(e)[:120])
     return vs, info, m
+
+
+def check_rd(a):
+    """RDKit -> library direction for molecules only RDKit's SMILES dialect can spell (dative bonds '->' / '<-') and for the empty molecule"""
+    from chython.containers import MoleculeContainer
+    from chython.utils import to_rdkit_molecule, from_rdkit_molecule
+    from bounded import domains as D
+    import random
+    Chem = _rd()
+    s = a['rd']
+    info = {'rd_dative_inputs': 0}
+    vs = []
+    wit = {'replay': 'check_rd', 'args': a}
+
+    def fire(field, what, e=None, g=None):
+        vs.append(V(f'c20:{field}', f'c20:{field}:rd|{s}', f'{what} [RDKit SMILES {s!r}]: expected {e!r}, got {g!r}', wit, {'expected': e, 'got': g}))
+
+    if s == '':
+        try:
+            t = to_rdkit_molecule(MoleculeContainer())
+            f = from_rdkit_molecule(Chem.Mol())
+            f2 = from_rdkit_molecule(t)
+            if t.GetNumAtoms() or len(f) or len(f2):
+                fire('empty', 'the empty molecule is not converted to the empty molecule', 0, (t.GetNumAtoms(), len(f), len(f2)))
+        except Exception as e:
+            fire('empty', f'conversion of the empty molecule raises {type(e).__name__}', 'an empty molecule', str(e)[:120])
+        return vs, info, None
+    rd = Chem.MolFromSmiles(s)
+    if rd is None:
+        return vs, info, None
+    info['rd_dative_inputs'] = 1
+    r = random.Random(f'{env.SEED}:{s}')
+    can = rd_canon(Chem, rd)
+    ref = None
+    for k in range(1 + a.get('renumberings', 0)):
+        rk, label = rd, 'rd'
+        if k:
+            perm = list(range(rd.GetNumAtoms()))
+            r.shuffle(perm)
+            rk, label = Chem.RenumberAtoms(rd, perm), f'RenumberAtoms(rd, {perm})'
+        try:
+            f = from_rdkit_molecule(rk)
+        except Exception as e:
+            fire('from:exc', f'from_rdkit_molecule({label}) raises {type(e).__name__}: {str(e)[:120]}', 'a molecule', type(e).__name__)
+            continue
+        for field, e, g in check_from_attrs(Chem, rk, f):
+            fire(field, f'from_rdkit_molecule({label}) does not preserve {field[5:]}', e, g)
+        fn, err = safe_norm(D, f)
+        if fn is None:
+            fire('from:invalid-result', f'from_rdkit_molecule({label}) returns a molecule the library cannot normalise', 'a molecule', err)
+            continue
+        if ref is None:
+            ref = str(fn)
+        elif str(fn) != ref:
+            fire('from:renumbering', f'str(from_rdkit(rd)) changes under {label}', ref, str(fn))
+        if not outside_model(Chem, rk):
+            try:
+                t = Chem.MolToSmiles(to_rdkit_molecule(f, keep_mapping=False))
+                if t != can:
+                    fire('roundtrip:from-to', f'to_rdkit(from_rdkit({label})) differs from rd in RDKit canonical SMILES (dative bonds: donor -> metal)', can, t)
+            except Exception as e:
+                fire('roundtrip:exc', f'to_rdkit(from_rdkit({label})) raises {type(e).__name__}', 'a molecule', str(e)[:120])
+    return vs, info, None
 
 
 def w_items(items):
     env.setup()
     n, keys, samples, vs, st = 0, [], [], [], {}
     for a in items:
+        if 'rd' in a:
+            v, info, m = check_rd(a)
+            vs.extend(v)
+            for k, x in info.items():
+                st[k] = st.get(k, 0) + x
+            n += 4 * (1 + a.get('renumberings', 0))
+            keys.append(f'rd|{a["rd"]}')
+            continue
         v, info, m = check_one(a)
         vs.extend(v)
         for k, x in info.items():
             st[k] = st.get(k, 0) + x
         if m is None:
             continue
-        n += 14
+        n += 14 + 2 * info['extra_renumberings'] + 2 * info['respellings'] + 5 * info['rd_variants'] + 7 * info['conformer_sets']
         if len(m) >= 2:
             c = str(m)
             keys.append(f'{a["form"]}|{c}')
             if info['stereo']:
                 keys.append(f'stereo|{a["form"]}|{c}')
+            if info['respellings']:
+                keys.append(f'respelled|{a["form"]}|{c}')
+            if info['rd_variants']:
+                keys.append(f'rd-variants|{a["form"]}|{c}')
+            if info['conformer_sets']:
+                keys.append(f'conformers|{a["form"]}|{c}')
         if len(samples) < 1 and info['stereo']:
             samples.append({'contracts': 'to-attrs, to-canonical, from-attrs, from-canonical, from.to=id, to.from=id, renumbering (both sides)',
                             'smiles': a['smiles'], 'form': a['form'], 'stereo': True})
@@ -401,17 +733,46 @@ def bounded(run):
     items = []
     for i, s in enumerate(corpus):
         for form in ('kekule', 'aromatic'):
-            items.append({'smiles': s, 'form': form, 'seed': i, 'coords': i % 3 == 0, 'offset': r.choice([0, 0, 0, 50, 1000])})
+            items.append({'smiles': s, 'form': form, 'seed': i, 'coords': i % 3 == 0, 'offset': r.choice([0, 0, 0, 50, 1000]),
+                          # audit extension (see bounds): alternate the form that carries the RDKit-side variants / re-spellings
+                          'variants': (i + (form == 'kekule')) % 2 == 0, 'respell': 2 if quick else 4, 'respell_all': i % 4 == 0,
+                          'renumberings': 1 if quick else 3, 'conf3d': 22 if i % 5 == 0 else 0})
     atl = sorted({str(m) for g, el, od, m in D.decorated_atlas(6, trials=3 if quick else 6, tag='c20-atlas', elements=('C', 'C', 'N', 'O', 'S', 'P', 'Cl'))})
     extra = atl + DECOR + COORD + STEREO
     for i, s in enumerate(extra):
         for form in ('kekule', 'aromatic'):
             items.append({'smiles': s, 'form': form, 'seed': i, 'coords': i % 2 == 0, 'offset': 0})
+            if s in STEREO or s in DECOR:
+                items[-1].update(variants=True, respell=4 if quick else 12, respell_all=True, renumberings=2 if quick else 6, conf3d=30)
+    gr = grid()
+    extra2 = DONORS + STEREO2 + SMALL + gr
+    for i, s in enumerate(extra2):
+        for form in ('kekule', 'aromatic'):
+            if form == 'aromatic' and (s in gr or s in SMALL):
+                continue        # single atoms: one form
+            items.append({'smiles': s, 'form': form, 'seed': 1000 + i, 'coords': i % 2 == 0, 'offset': [0, 0, 50, 1000][i % 4], 'variants': True,
+                          'respell': 4 if quick else 12, 'respell_all': s not in gr, 'renumberings': 2 if quick else 6, 'conf3d': 30 if s not in gr else 0})
+    ntiny = 24 if quick else 120
+    for i, s in enumerate(TINY):
+        items.append({'smiles': s, 'form': 'kekule', 'seed': 2000 + i, 'coords': False, 'offset': 0, 'variants': True, 'respell': ntiny, 'respell_all': True,
+                      'renumberings': 6 if quick else 24, 'conf3d': 0})
+    for i, s in enumerate(RD_DATIVE + ['']):
+        items.append({'rd': s, 'renumberings': 3 if quick else 12})
     run.bound(f'seeded corpus sample {n_corpus} of 4200, {len(atl)} valence-valid decorated atlas graphs <= 6 nodes, {len(DECOR)} isotope/charge/radical/'
               f'aromatic decorations, {len(COORD)} coordinate-bond complexes, {len(STEREO)} stereo generator molecules (carbon centres, stereo double bonds, '
               f'explicit hydrogens, allenes/cumulenes as unsupported labels); each in Kekule and aromatic (thiele) form; one seeded renumbering of the '
               f'chython molecule (offsets 0/7/100; input offsets 0/50/1000) and one RenumberAtoms permutation of the RDKit molecule per relation; '
               f'2D coordinates (clean2d / Compute2DCoords) on every 3rd corpus and every 2nd generator molecule; random atom map numbers on 30 % of RDKit atoms')
+    run.bound(f'audit extension: {len(DONORS)} further coordinate-bond complexes (every donor element of the dative-direction rule, both written orders), '
+              f'{len(STEREO2)} further stereo molecules (isotope-labelled, dependent, ring E/Z, charged, multi-centre), {len(SMALL)} single-atom / two-atom / '
+              f'organometallic inputs and the empty molecule, {len(gr)} single-atom species [X Hn charge] (23 elements x H 0..4 x charge -1..+2, neutral ones also as '
+              f'radicals) of which the ones both toolkits accept are run; {len(RD_DATIVE)} RDKit dative SMILES (-> / <-) read by RDKit with {3 if quick else 12} '
+              f'RenumberAtoms permutations; per-atom/bond transfer also checked on the renumbered copy; stereo-bearing / coordinate molecules get '
+              f'{1 if quick else 3} (corpus) or {2 if quick else 6} (generator) further renumberings; re-spelling: {2 if quick else 4} (corpus: stereo-bearing ones and every '
+              f'4th other) or {4 if quick else 12} (generator) seeded RDKit random SMILES of the same molecule re-parsed by the library; {len(TINY)} smallest centres / double '
+              f'bonds with {ntiny} spellings each; RDKit-side variants of MolFromSmiles(str(m)) on every second corpus (form alternating) and every generator '
+              f'molecule: AddHs, mol-block round trip, seeded other stereo atoms with flipped E/Z, STEREOCIS/STEREOTRANS labels; two embedded 3D '
+              f'conformers (ETKDG, AddHs) on every 5th corpus molecule <= 22 heavy atoms and generator molecules <= 30')
     run.assume('RDKit (MolFromSmiles, SanitizeMol, AssignStereochemistry, MolToSmiles canonicalisation, CW/CCW and STEREOZ/E semantics) is the trusted oracle',
                'accepted by both toolkits: the library parses the SMILES without valence errors and with every hydrogen count assigned; RDKit parses and '
                'sanitises the library\'s canonical SMILES (coordinate-bond complexes: RDKit sanitises the converted molecule); others are counted and skipped',
@@ -422,7 +783,13 @@ def bounded(run):
                'AROMATIC; order 8 must be DATIVE (ZERO accepted when reading)',
                'hydrogen counts one-directional: the library\'s assigned count must equal RDKit\'s total count',
                'allene labels and cumulene cis/trans labels are documented as not transferred; RDKit-only centres (non-carbon) are outside the library\'s model: '
-               'the inverse relation on RDKit\'s side is checked for molecules whose RDKit centres are all carbon')
+               'the inverse relation on RDKit\'s side is checked for molecules whose RDKit centres are all carbon',
+               'also outside the library\'s model (fixed predicates, oracles-free, on the RDKit molecule): centres with fewer than 3 non-hydrogen neighbours '
+               '(deuterium counts as hydrogen), stereo double bonds with an end bearing only hydrogen, atoms with more than one radical electron',
+               'RDKit-side variants are inputs of the claim only when RDKit itself writes the same canonical SMILES for the variant and the original; '
+               're-spellings only when RDKit reads the library\'s canonical SMILES of the re-parsed spelling as the same compound (parser faithfulness is C02/C12)',
+               'STEREOZ/STEREOE with stereo atoms other than RDKit\'s default choice mean cis/trans relative to the stereo atoms (as RDKit\'s own SMILES writer reads them)',
+               '3D conformers: the statement names 2D coordinates; the conformer transfer is checked only as part of "mutually inverse" (positions within 1e-6)')
     table_lemmas(run)
     tasks = chunks(items, 10)
     res = pmap(w_items, tasks)
@@ -440,7 +807,7 @@ def bounded(run):
     run.notes['c20_counts'] = stats
     run.notes['gap_hits'] = stats.get('gap_hits', 0)
     for f in sorted(fam):
-        vs = sorted(fam[f], key=lambda v: (len(v[3]['args']['smiles']), v[1]))
+        vs = sorted(fam[f], key=lambda v: (len(v[3]['args'].get('smiles', v[3]['args'].get('rd', ''))), v[1]))
         seen = set()
         for v in vs:
             if v[1] in seen:
@@ -454,9 +821,9 @@ def bounded(run):
 def replay(rec):
     env.setup()
     w = rec.get('witness') or {}
-    if w.get('replay') != 'check_one':
+    if w.get('replay') not in ('check_one', 'check_rd'):
         return not table_findings()[0]
-    vs, info, m = check_one(w['args'])
+    vs, info, m = (check_one if w['replay'] == 'check_one' else check_rd)(w['args'])
     for v in vs:
         print('  still:', v[2][:300])
     return not vs
